@@ -375,6 +375,27 @@ func main() {
 			for _, f := range runTyped(*c.Typed, tmo) {
 				r.Fail(f.key, f.what, c)
 			}
+		case "fields":
+			r.Case()
+			for _, f := range runFields(*c.Fields, tmo) {
+				r.Fail(f.key, f.what, c)
+			}
+		case "lifecycle":
+			r.Case()
+			for _, f := range runLifecycle(*c.Life, tmo) {
+				r.Fail(f.key, f.what, c)
+			}
+		case "held":
+			r.Case()
+			for _, f := range runHeld(c, tmo) {
+				r.Fail(f.key, f.what, c)
+			}
+		case "reentrant":
+			r.Case()
+			fs, trace := runReentrant(c.Seed)
+			for _, f := range fs {
+				r.Fail(f.key, f.what+" — history: "+strings.Join(trace, " | "), c)
+			}
 		case "period":
 			r.Case()
 			for _, f := range runPeriod(c) {
@@ -397,6 +418,11 @@ func main() {
 		return
 	}
 	typedLeg(r, tmo)
+	// every tier: reply fields x call destination, lifecycle orders, callbacks re-entering the client (diversity.go)
+	fieldsLeg(r, tmo)
+	lifecycleLeg(r, tmo)
+	reentrantLeg(r)
+	heldLeg(r, tmo)
 	if r.Search {
 		aged := startAged()
 		searchLegs(r, tmo)
